@@ -19,7 +19,7 @@ def units(tier):
 
 
 def strategy(tier, unit):
-    return SF.case_strategy(unit, allow_special=False, box=8)
+    return SF.case_strategy(unit, allow_special=False, box=8, nhkl=6)
 
 
 def check(case, ctx):
@@ -34,6 +34,7 @@ def check(case, ctx):
     for k in kinds:
         ctx.event("adp:" + k)
     nontriv = False
+    SF.warm_up(M, case, ctx)
     for h in case["hkl"]:
         h = np.array(h, np.int64)
         hR = h @ R
